@@ -13,6 +13,8 @@ import (
 	"fmt"
 	"io"
 	"net/http"
+	"os"
+	"os/exec"
 	"reflect"
 	"sort"
 	"strings"
@@ -53,7 +55,7 @@ func (rt *recRT) RoundTrip(req *http.Request) (*http.Response, error) {
 type nHits struct{ n uint64 }
 
 func (p nHits) Pace(_ time.Duration, hits uint64) (time.Duration, bool) { return 0, hits >= p.n }
-func (p nHits) Rate(time.Duration) float64                                { return 0 }
+func (p nHits) Rate(time.Duration) float64                              { return 0 }
 
 func clone(h http.Header) http.Header {
 	c := http.Header{}
@@ -200,5 +202,35 @@ func TestC15(t *testing.T) {
 		}
 	}
 	R.Part("attacker", "cases", cases)
+	raceCompanionCmd(R)
 	R.Finish(t)
+}
+
+// raceCompanionCmd runs TestRaceC15Cmd (harness/inpkg/main/c15_race_test.go) in /repo's package main with
+// -race: the lazy targeter as the attack command wires it, drawn from by 16 workers at once. Auxiliary: it can
+// only report true races or a functional failure of that run.
+func raceCompanionCmd(R *ev.Run) {
+	ov, repo := os.Getenv("VERIF_OVERLAY_PLAIN"), os.Getenv("VERIF_REPO")
+	if os.Getenv("VERIF_NO_RACE") != "" || ov == "" || repo == "" {
+		return
+	}
+	args := []string{"test", "-race", "-tags", "verif", "-vet=off", "-overlay", ov, "-count=1", "-run", "^TestRaceC15Cmd$", "."}
+	cmd := exec.Command("go", args...)
+	cmd.Dir = repo
+	cmd.Env = append(os.Environ(), "CGO_ENABLED=1")
+	out, err := cmd.CombinedOutput()
+	so := string(out)
+	res := map[string]any{"cmd": "go " + strings.Join(args, " "), "ok": err == nil}
+	if strings.Contains(so, "WARNING: DATA RACE") {
+		res["race"] = true
+		R.Violation("race:attack-command-lazy-targeter", map[string]any{"output": ev.Trunc(so, 3000)})
+	} else if err != nil {
+		res["error"] = ev.Trunc(so, 1500)
+		if strings.Contains(so, "--- FAIL") {
+			R.Violation("race-companion:command:functional-failure", map[string]any{"output": ev.Trunc(so, 3000)})
+		} else {
+			R.Cap("command race companion could not run: " + ev.Trunc(so, 300))
+		}
+	}
+	R.Set("race_companion_command", res)
 }
